@@ -21,7 +21,7 @@ alloy::sol! {
     function getLockedPkscript(bytes pkscript, uint256 lock_block_count) returns (bytes locked_pkscript);
 }
 
-const KINDS: [&str; 13] = ["sstore", "sload+log", "loop", "call-child", "create", "sha256", "locked-pkscript", "revert", "return", "invalid", "number", "blockhash", "env"];
+const KINDS: [&str; 15] = ["sstore", "sload+log", "loop", "call-child", "create", "sha256", "locked-pkscript", "revert", "return", "invalid", "number", "blockhash", "env", "call-spin", "churn"];
 
 fn program(stmts: &[usize]) -> Vec<u8> {
     let mut a = Asm::new();
@@ -80,6 +80,23 @@ fn program(stmts: &[usize]) -> Vec<u8> {
             11 => {
                 // BLOCKHASH(NUMBER - 1) -> mem[0]
                 a.push(1).op(0x43).op(0x03).op(0x40).push(0).op(0x52);
+            }
+            13 => {
+                // CALL S.spin(0xffff): the callee burns a few million gas, so the call needs about 1/63 more gas
+                // to succeed than it finally uses; a failure of the inner call is propagated
+                a.push_bytes(&[5, 0xff, 0xff]).push(0).op(0x52);
+                a.push(0).push(0).push(3).push(29).push(0).push_bytes(&s_addr).op(0x5a).op(0xf1);
+                a.op(0x80).op(0x15).jumpi("fail");
+                a.op(0x50);
+            }
+            14 => {
+                // set and clear 8 fresh slots: the refund makes the gas used smaller than the gas needed
+                for i in 0..8u64 {
+                    a.push(1).push(0x40 + 8 * pos as u64 + i).op(0x55);
+                }
+                for i in 0..8u64 {
+                    a.push(0).push(0x40 + 8 * pos as u64 + i).op(0x55);
+                }
             }
             _ => {
                 // every environment value the statement does not exclude, hashed into mem[0]: ADDRESS, ORIGIN,
@@ -478,6 +495,32 @@ pub fn worker(which: &str, tier: &str, shard: u64, nshards: u64, budget_s: f64) 
                     if status != ok || out.trim_start_matches("0x") != data.trim_start_matches("0x") {
                         st.violations.push(mk("call-differs-from-transaction", what.clone(), format!("eth_call gave (success {}, data {}) but the transaction gave (status {}, output {})", ok, trunc(&data, 200), rc["status"], trunc(&out, 200))));
                     }
+                }
+                a.call("brc20_clearCaches", json!([]));
+            }
+            // C17: a sender that has a signed transaction waiting in the pending pool: eth_call from that signer
+            // versus the signer's next transaction (which then also drains the waiting one)
+            if which == "C17" && pi % 16 == 0 {
+                let signer = addr_s(crate::sign::signer_addr(0));
+                let mut w = worlds[0].clone();
+                for s in block(vec![TxSpec::Transact { signer: 0, nonce: 1, tgt: Tgt::s(), data: vec![6, 0], len: DEFAULT_LEN }]) {
+                    w.exec(&mut a, &s);
+                }
+                let d = &datas[1];
+                st.cases += 1;
+                let what = format!("{} call data n={} from a signer with a transaction waiting in the pool", pname, d[0]);
+                let (ok, data) = sim(&mut a, &signer, Some(&target), d);
+                let o = w.exec(&mut a, &Step::Tx(TxSpec::Transact { signer: 0, nonce: 0, tgt: prog_tgt(), data: d.clone(), len: DEFAULT_LEN }));
+                let rcs = o.outcome.result().and_then(|x| x.as_array().cloned()).unwrap_or_default();
+                match rcs.first() {
+                    Some(rc) => {
+                        let out = a.call("debug_traceTransaction", json!([rc["transactionHash"]])).result().and_then(|t| t["output"].as_str().map(|s| s.to_string())).unwrap_or_else(|| "<no trace>".into());
+                        let status = rc["status"].as_str() == Some("0x1");
+                        if status != ok || out.trim_start_matches("0x") != data.trim_start_matches("0x") {
+                            st.violations.push(mk("call-differs-from-transaction", what.clone(), format!("eth_call gave (success {}, data {}) but the transaction gave (status {}, output {})", ok, trunc(&data, 200), rc["status"], trunc(&out, 200))));
+                        }
+                    }
+                    None => st.errors.push(format!("{}: the signer's transaction returned no receipt", what)),
                 }
                 a.call("brc20_clearCaches", json!([]));
             }
